@@ -195,7 +195,12 @@ def run_property(prop, tier, fx, fx_nd):
     ctx = Ctx(prop, tier, fx, fx_nd)
     ctx.inline_set = inline_set(mod, fx)
     ctx.desugar = bool(getattr(mod, "DESUGAR", bool(os.environ.get("VERIF_DESUGAR_ALL"))))
-    mod.run(ctx)
+    try:
+        mod.run(ctx)
+    except Exception:
+        # a rule that cannot be evaluated on this tree has not shown anything: fail closed, with the reason
+        tb = traceback.format_exc().strip().splitlines()
+        ctx.violation("ENGINE", prop, "rule-evaluation-failed", "the rules of %s could not be evaluated on this tree (%s | %s): no verdict, failing closed" % (prop, tb[-1][:160], tb[-3].strip()[:120] if len(tb) > 2 else ""), "")
     if ctx.inlined:
         ctx.note("helpers not present when the rules were written, inlined at their call sites: %s" % ", ".join(sorted(ctx.inlined)))
     extra = None
